@@ -822,6 +822,28 @@ def runApi (st : State) (node : Bool) (kind name : String) (ks : List K) (toks :
     | .error .crash => some (.crash, is1)
     | .error (.stuck m) => some (.stuck m, is1)
 
+/-- the shapes of an accepted call -/
+def resShapes : Res → Option (List Shape)
+  | .ok (.node n) => some [n.shape]
+  | .ok (.nodes l) => some (l.map (·.shape))
+  | .ok (.tensor x) => some [x.shape]
+  | .ok (.tensors l) => some (l.map (·.shape))
+  | _ => none
+
+/-- evaluating the new node(s) will throw -/
+def resLazy : Res → Bool
+  | .ok (.node n) => n.lazyErr
+  | .ok (.nodes l) => l.any (·.lazyErr)
+  | _ => false
+
+/-- the state of a single-graph program: every variable lives in the default graph -/
+def State.singleGraph (st : State) : Prop :=
+  ∀ p ∈ st.vars, ∀ n ∈ p.2.n, n.graph = st.curGraph
+
+/-- every variable has a value on both APIs -/
+def State.allEager (st : State) : Prop :=
+  ∀ p ∈ st.vars, p.2.t.isSome = true ∧ ∀ n ∈ p.2.n, n.lazyErr = false
+
 def isRandom (f : String) (toks : List String) : Bool :=
   f.startsWith "random::" ||
   (f == "dropout" && match toks with
